@@ -99,7 +99,13 @@ def r02_2(prog, rep):
     ps = P.paths_of(prog, f)
     want_m = ("boolop", "or", (("param", "marshaller"), None))
     for p, r in P.returns(ps):
-        bytes_guard = [pol for g, pol in p.guards() if T.is_call_to(g, f"{C.INSP}.isbytestype") and g[2] == (t,)]
+        def about_t(x):
+            """t itself or t seen through the library's own normalisers (unwrap / origin / resolve_supertype)."""
+            while x[0] == "call" and T.refname(x[1]) in (f"{C.INSP}.unwrap", f"{C.INSP}.origin", f"{C.INSP}.resolve_supertype") and len(x[2]) == 1:
+                x = x[2][0]
+            return x == t
+
+        bytes_guard = [pol for g, pol in p.guards() if T.is_call_to(g, f"{C.INSP}.isbytestype") and len(g[2]) == 1 and about_t(g[2][0])]
         if r[0] == "sub" and r[1][0] == "ref" and r[1][1].startswith("typelib."):
             continue  # a memo hit (its key is judged by R02.4)
         if r[0] != "call":
@@ -121,7 +127,10 @@ def r02_2(prog, rep):
         else:
             rep.check(e == ("param", "encoder") and d == ("param", "decoder"), "R02.2", f.qualname, f.loc, "[json] encoder <- encoder, decoder <- decoder (caller's coders, not swapped, not replaced)", f"[json] the caller's coders are not passed through: encoder={T.show(e)[:50] if e else None}, decoder={T.show(d)[:50] if d else None}", detail="json-coders")
             rep.check(bytes_guard == [False], "R02.2", f.qualname, f.loc, "[json] reached only when t is not bytes-like", "[json] path not separated from the bytes path by isbytestype(t)", detail="json-guard")
-    # identity lambdas only under the bytes guard
+    # the bytes guard looks at the resolved type, not at the annotation as spelled
+    guards_subject = [g[2][0] for pth in ps for g, _ in pth.guards() if T.is_call_to(g, f"{C.INSP}.isbytestype") and g[2]]
+    raw = [x for x in guards_subject if x == t]
+    rep.check(bool(guards_subject) and not raw, "R02.2", f.qualname, f.loc, "the verbatim-bytes decision is taken on the unwrapped / resolved type", "isbytestype() is applied to the annotation as passed: NewType('Blob', bytes), an alias of bytes or Final[bytes] get the JSON coder around the bytes routines — codec(Blob).encode(b'x') raises TypeError where codec(bytes) returns b'x'", detail="bytes-guard-subject")
     del want_m
     cod = prog.cls("typelib.codecs.Codec")
     fields = [s.target.id for s in cod.node.body if isinstance(s, ast.AnnAssign) and isinstance(s.target, ast.Name)]
